@@ -141,6 +141,7 @@ type Expect struct {
 	ExplicitCL     bool
 	ExplicitTE     bool
 	TrailerList    bool // a Trailer value was a comma-separated list
+	TrailerLower   bool // a Trailer value was not in canonical header-key form
 	Committed      bool
 }
 
@@ -165,6 +166,9 @@ func Model(p *Program) *Expect {
 					e.TrailerList = true
 				}
 				for _, k := range strings.Split(v, ",") {
+					if t := textproto.TrimString(k); t != canon(t) {
+						e.TrailerLower = true
+					}
 					if k = canon(k); k != "" && !declared[k] {
 						declared[k] = true
 						e.TrailerDecl = append(e.TrailerDecl, k)
@@ -316,6 +320,10 @@ func Features(p *Program, e *Expect) []string {
 	}
 	if len(e.TrailerDecl) > 0 {
 		f["trailer"] = true
+	}
+	if e.TrailerLower {
+		f["trailer-noncanonical-declaration"] = true
+		delete(f, "trailer")
 	}
 	if e.TrailerList {
 		f["trailer-list"] = true
